@@ -139,3 +139,99 @@ def replay(doc):
     r = globals()[doc["monitor"]](dict(prop=doc["property"]))
     hit = [v for v in r["violations"] if v["what"].startswith(doc["clause"])]
     return bool(hit), "\n".join(v["what"] for v in hit) or "clause holds on this tree"
+
+
+# ============================================================================ C11: event queue against a list model
+def queue_monitor(task):
+    """Random interleavings of every EventQueue operation (and JSON round trips) against the pending-set model."""
+    from acnportal import acnsim
+    from acnportal.acnsim.events import EventQueue, PluginEvent, UnplugEvent, RecomputeEvent, Event
+    t0 = time.time()
+    prop, tier, seed0 = task["prop"], task.get("tier", "quick"), int(task.get("seed", 0))
+    n = 150 if tier == "quick" else 4000
+    evals = 0
+    viol = []
+    distinct = set()
+
+    def bad(tag, detail, seed):
+        if len(viol) < 5:
+            rp = write_replay(prop, f"fnmon_{tag}_{seed}.json", dict(kind="fn_monitor", monitor="queue_monitor", property=prop, clause=tag, detail=detail, seed=seed))
+            viol.append(dict(what=f"{tag}: {detail}"[:300], replay=rp))
+
+    def key(e):
+        return (e.timestamp, e.precedence)
+
+    for k in range(n):
+        seed = seed0 * 100003 + k
+        r = random.Random(seed)
+        q = EventQueue()
+        pending = []          # model: list of event objects
+        ops = []
+        uid = 0
+        for step in range(r.randint(3, 25)):
+            op = r.choice(["add", "add", "adds", "get", "cur", "cur", "json", "last", "len"])
+            ops.append(op)
+            evals += 1
+
+            def mk():
+                nonlocal uid
+                uid += 1
+                ts = r.randint(0, 12)
+                c = r.choice(["P", "U", "R", "E"])
+                if c == "R":
+                    return RecomputeEvent(ts)
+                if c == "E":
+                    return Event(ts)
+                ev = acnsim.EV(ts, ts + 3, 5.0, "st", f"s{uid}", acnsim.Battery(10, 0, 7))
+                return PluginEvent(ts, ev) if c == "P" else UnplugEvent(ts, ev)
+            if op == "add":
+                e = mk(); q.add_event(e); pending.append(e)
+            elif op == "adds":
+                es = [mk() for _ in range(r.randint(0, 4))]; q.add_events(es); pending.extend(es)
+            elif op == "get":
+                if not pending:
+                    try:
+                        q.get_event(); bad("get_on_empty_raises", "no exception", seed)
+                    except IndexError:
+                        pass
+                    continue
+                e = q.get_event()
+                if e not in pending or any(key(x) < key(e) for x in pending):
+                    bad("get_event_returns_time_then_precedence_minimum", f"got {key(e)} pending {sorted(map(key, pending))}", seed)
+                if e in pending:
+                    pending.remove(e)
+            elif op == "cur":
+                t = r.randint(0, 13)
+                got = q.get_current_events(t)
+                want = [x for x in pending if x.timestamp <= t]
+                if sorted(map(id, got)) != sorted(map(id, want)):
+                    bad("current_events_are_exactly_the_pending_with_ts<=t", f"t={t} got {[key(x) for x in got]} want {sorted(key(x) for x in want)}", seed)
+                if any(key(got[i]) > key(got[i + 1]) for i in range(len(got) - 1)):
+                    bad("current_events_sorted_time_then_precedence", f"{[key(x) for x in got]}", seed)
+                for x in got:
+                    if x in pending:
+                        pending.remove(x)
+            elif op == "json":
+                before = [(ts, type(e).__name__, e.precedence, getattr(getattr(e, "ev", None), "session_id", None)) for ts, e in q._queue]
+                q2 = EventQueue.from_json(q.to_json())
+                after = [(ts, type(e).__name__, e.precedence, getattr(getattr(e, "ev", None), "session_id", None)) for ts, e in q2._queue]
+                if before != after or q2._timestep != q._timestep:
+                    bad("json_round_trip_keeps_heap_array", f"{before} -> {after}", seed)
+                # continue with the restored queue: it must behave identically
+                m = {}
+                for (ts, e), (ts2, e2) in zip(q._queue, q2._queue):
+                    m[id(e)] = e2
+                pending = [m.get(id(e), e) for e in pending]
+                q = q2
+            elif op == "last":
+                got = q.get_last_timestamp()
+                want = max((x.timestamp for x in pending), default=None)
+                if got != want:
+                    bad("last_timestamp_reflects_pending", f"got {got} want {want}", seed)
+            if len(q) != len(pending) or q.empty() != (not pending):
+                bad("len_and_empty_reflect_pending", f"len {len(q)} empty {q.empty()} model {len(pending)}", seed)
+        distinct.add(tuple(ops))
+    return dict(label=task.get("label", "queue_monitor"),
+                bound=f"{n} seeded operation sequences of 3-25 steps over add_event/add_events/get_event/get_current_events/len/empty/"
+                      f"get_last_timestamp/JSON round trip, timestamps 0..12 with ties, all four event classes",
+                evaluations=evals, distinct_nontrivial=len(distinct), violations=viol, wall_s=round(time.time() - t0, 2))
